@@ -16,6 +16,8 @@ package copyh
 
 import (
 	"bytes"
+	"crypto/sha256"
+	"hash"
 	"context"
 	"encoding/json"
 	"errors"
@@ -108,6 +110,7 @@ type rec struct {
 	toks   []string
 	idx    map[dkeyT]int
 	quiet  atomic.Bool // prologue of Copy (MapRoot / platform selection): not part of the copy trace
+	servedBad []int     // nodes for which the bytes that arrived at a successful dst.Push differ from the generator's (Model/CopyBytes.v's [served])
 	refs   []string    // the reference strings given to dst.Tag / dst.PushReference
 	pro    []int       // nodes read from the source in Copy's prologue (resolveRoot's FetchReference, MapRoot /
 	// platform selection): outside the transition system, but inside "one copy call" for C04's counters
@@ -402,6 +405,8 @@ func (d *dstW) push(ctx context.Context, t ocispec.Descriptor, rd io.Reader, ref
 	// "x" = the content was already there (ErrAlreadyExists, or an idempotent success as registries
 	// answer); "k" = this push stored it
 	had, _ := d.under.Exists(ctx, t)
+	hr := &hashingReader{r: rd, h: sha256.New()}
+	rd = hr
 	var err error
 	if rp, ok := d.under.(registry.ReferencePusher); ok && ref != "" {
 		err = rp.PushReference(ctx, t, rd, ref)
@@ -413,6 +418,11 @@ func (d *dstW) push(ctx context.Context, t ocispec.Descriptor, rd io.Reader, ref
 		res = "x"
 	} else if err != nil {
 		res = "e"
+	}
+	if res == "k" && n >= 0 && !bytes.Equal(hr.h.Sum(nil), sumOf(d.r.bytes[n])) {
+		d.r.mu.Lock()
+		d.r.servedBad = append(d.r.servedBad, n)
+		d.r.mu.Unlock()
 	}
 	if _, ok := d.under.(registry.ReferencePusher); !ok && ref != "" && res != "e" {
 		if terr := d.under.Tag(ctx, t, ref); terr != nil {
@@ -527,6 +537,20 @@ func (d dstWRefMount) Mount(ctx context.Context, t ocispec.Descriptor, fromRepo 
 	return d.mount(ctx, t, fromRepo, getContent)
 }
 
+// hashingReader hashes what the destination reads from the reader it was given.
+type hashingReader struct {
+	r io.Reader
+	h hash.Hash
+}
+
+func (x *hashingReader) Read(p []byte) (int, error) {
+	n, err := x.r.Read(p)
+	x.h.Write(p[:n])
+	return n, err
+}
+
+func sumOf(b []byte) []byte { s := sha256.Sum256(b); return s[:] }
+
 // dstWRef additionally implements registry.ReferencePusher (push + tag in one call).
 type dstWRef struct{ *dstW }
 
@@ -579,6 +603,7 @@ type Result struct {
 	DstMax   int
 	Widths, Taken []int // controlled schedule: number of parked operations at each step, and the choice made
 	ExtraTag bool  // the source reference also resolves in the destination although a different destination reference was given
+	ServedBad []int   // successful pushes whose bytes were not the generator's
 	Refs     []string // reference strings given to dst.Tag / dst.PushReference
 	Pro      []int // nodes read from the source in the prologue
 	Keff     int
@@ -991,6 +1016,7 @@ func Execute(c *Case) *Result {
 	res.Toks = r.toks
 	res.Pro = r.pro
 	res.Refs = r.refs
+	res.ServedBad = r.servedBad
 	if r.sched != nil {
 		res.Widths, res.Taken = r.sched.widths, r.sched.taken
 	}
@@ -1080,6 +1106,7 @@ func ModelInput(res *Result) string {
 	d0 := append([]int(nil), c.D0...)
 	sort.Ints(d0)
 	mode := c.Mode
+	xn := ""
 	rootField := fmt.Sprint(root)
 	if c.Mode == "x" || c.Mode == "X" {
 		// ExtendedCopy(Graph): copyGraph runs from every root above the node, sharing tracker, proxy and
@@ -1092,10 +1119,14 @@ func ModelInput(res *Result) string {
 			}
 		}
 		rootField = strings.Join(rs, "+")
+		if c.Mode == "X" {
+			xn = fmt.Sprintf("xt=%d ", c.Root) // an ExtendedCopy run, whatever its outcome
+		}
 		if c.Mode == "X" && len(res.Toks) >= 3 {
 			k := len(res.Toks)
 			if res.Toks[k-3] == fmt.Sprintf("TB.%d", c.Root) && res.Toks[k-2] == fmt.Sprintf("TE.%d", c.Root) {
 				tr = strings.Join(append(append([]string(nil), res.Toks[:k-3]...), res.Toks[k-1]), ",")
+				xn += fmt.Sprintf("xn=%d ", c.Root) // ExtendedCopy: TagB/TagE of this node were taken out right before the final RT (Model/CopyExt.v puts them back)
 			}
 		}
 	}
@@ -1103,7 +1134,7 @@ func ModelInput(res *Result) string {
 		mode += "m"
 	}
 	mode += "/" + c.cbBits()
-	pre := linksField(g) + prologueField(res) + rflField(g) + refsField(res)
+	pre := linksField(g) + prologueField(res) + rflField(g) + refsField(res) + xn
 	if c.PreTag >= 0 && (c.Mode == "t" || c.Mode == "r") {
 		pre += fmt.Sprintf("pt=%d ", c.PreTag)
 	}
